@@ -15,7 +15,7 @@ RULE = ('one case = one generated peer (name lists over database names including
         'group-exchange moduli 2048..8192): the real CLI writes a policy with -M, the file is loaded and evaluated with -P against the same peer (must pass with no errors) and against every single-attribute perturbation of it '
         '(insert / delete / swap-adjacent one name in each of kex, host keys, ciphers, MACs; other host-key size, CA size, CA type, modulus size; quick: 8 sampled perturbations per peer, thorough: all positions), which must fail naming the field; '
         'plus every built-in policy against a peer synthesised exactly from it (client policies through -c).  Non-trivial: the policy file was written and at least one -P verdict compared; distinct = distinct (peer, perturbation)')
-REQUIRED = {'multi_target_verdicts': 8, 'policies_made': 15, 'same_peer_passes': 15, 'perturbations_checked': 100, 'builtin_policies_checked': 40, 'names_with_equals': 3, 'size_perturbations': 10, 'ca_perturbations': 4}
+REQUIRED = {'client_roundtrips': 4, 'multi_target_verdicts': 8, 'policies_made': 15, 'same_peer_passes': 15, 'perturbations_checked': 100, 'builtin_policies_checked': 40, 'names_with_equals': 3, 'size_perturbations': 10, 'ca_perturbations': 4}
 ASSUMPTIONS = ['the mismatched field is recognised by keyword class (exchange / host key / cipher / mac / size / CA / modulus), case-insensitively, so rewording does not alarm',
                'perturbations that would empty a list are skipped (RFC 4253 requires non-empty lists)']
 MANIFEST = {
@@ -34,6 +34,8 @@ def cases(tier, seed):
     n = 24 if tier == 'quick' else 400
     for i in range(n):
         cs.append({'kind': 'roundtrip', 'seed': rng.randrange(1 << 30), 'profile': ['plain', 'equals', 'cert', 'gex', 'rsa', 'cert', 'gss', 'cert'][i % 8], 'all': tier == 'thorough', 'json': i % 2 == 0})
+    for i in range(6 if tier == 'quick' else 60):
+        cs.append({'kind': 'client', 'seed': rng.randrange(1 << 30), 'sym': i % 2 == 0, 'json': i % 3 == 0})
     for i in range(4 if tier == 'quick' else 40):
         cs.append({'kind': 'multi', 'seed': rng.randrange(1 << 30), 'profile': ['plain', 'cert', 'rsa', 'equals'][i % 4], 'threads': [1, 3][i % 2], 'json': i % 2 == 0})
     for name in BUILTIN_POLICIES:
@@ -267,6 +269,57 @@ def run_multi(c):
     return viol, counters
 
 
+def run_client(c):
+    """-c -M then -c -P against the same scripted client (identical or different lists per direction), then against a drifted client."""
+    rng = random.Random(c['seed'])
+    names = audit.db_names()
+    k = gen.random_kex(rng, names, {'db': 1}, (2, 6))
+    if not c['sym']:
+        k['enc_cs'] = gen.pick_names(rng, 'enc', names, rng.randint(1, 5), {'db': 1})
+        k['mac_cs'] = gen.pick_names(rng, 'mac', names, rng.randint(1, 5), {'db': 1})
+        k['comp_cs'] = ['zlib'] if k['comp_sc'] != ['zlib'] else ['none']
+    script = {'banner': 'SSH-2.0-OpenSSH_9.%d' % rng.randint(0, 9), 'kex': k}
+    viol, counters = [], {'client_roundtrips': 0}
+    d = runner.scratch_dir('c05c')
+    try:
+        pf = os.path.join(d, 'client-policy.txt')
+        r, p = audit.audit_client(script, ['-M', pf], cwd=d)
+        if p.count('connected') == 0:
+            return None, {'why': 'client peer could not connect'}
+        if r.status != 0 or not os.path.exists(pf):
+            viol.append(_v('C05/make-policy-failed:client:status%s' % r.status, '-c -M did not write a policy file', out=(r.out + r.err)[-300:]))
+            return viol, counters
+        counters['policies_made'] = 1
+        fmt = ['-j'] if c['json'] else ['-n']
+        r2, p2 = audit.audit_client(script, ['-P', pf] + fmt, cwd=d)
+        if p2.count('connected') == 0:
+            return None, {'why': 'client peer could not connect'}
+        v, errs = verdict_of(r2, c['json'])
+        counters['same_peer_passes'] = 1
+        counters['client_roundtrips'] = 1
+        if r2.status != 0 or v != 'passed' or errs:
+            viol.append(_v('C05/own-policy-does-not-pass:client:%s' % ('symmetric' if c['sym'] else 'asymmetric-lists'), 'the policy made from a client does not pass against the same client', status=r2.status, verdict=v, errors=errs, out=r2.out[-300:]))
+            return viol, counters
+        # drift: one more cipher in the lists the report shows
+        s3 = copy.deepcopy(script)
+        extra = rng.choice([n for n in names['enc'] if n not in k['enc_sc'] and not n.endswith('-*')])
+        s3['kex']['enc_sc'] = k['enc_sc'] + [extra]
+        if c['sym']:
+            s3['kex']['enc_cs'] = k['enc_cs'] + [extra]
+        r3, p3 = audit.audit_client(s3, ['-P', pf] + fmt, cwd=d)
+        if p3.count('connected') == 0:
+            return None, {'why': 'client peer could not connect'}
+        v, errs = verdict_of(r3, c['json'])
+        counters['perturbations_checked'] = 1
+        if r3.status != 3 or v != 'failed':
+            viol.append(_v('C05/drift-not-detected:client:cipher', 'a client with one more cipher passes the policy made from the original client', status=r3.status, verdict=v))
+        elif [e for e in errs if 'cipher' not in e.lower()]:
+            viol.append(_v('C05/drift-misattributed:client', 'fields that did not change are reported as mismatched', errors=errs))
+    finally:
+        runner.cleanup(d)
+    return viol, counters
+
+
 def run_builtin(c):
     from ssh_audit.builtin_policies import BUILTIN_POLICIES
     pol = BUILTIN_POLICIES[c['policy']]
@@ -288,7 +341,7 @@ def run_builtin(c):
 
 
 def run_case(c):
-    viol, counters = {'roundtrip': run_roundtrip, 'builtin': run_builtin, 'multi': run_multi}[c['kind']](c)
+    viol, counters = {'roundtrip': run_roundtrip, 'builtin': run_builtin, 'multi': run_multi, 'client': run_client}[c['kind']](c)
     if viol is None:
         return {'verdict': 'inconclusive', 'why': counters.get('why')}
     seen, uniq = set(), []
